@@ -75,7 +75,7 @@ def main():
             record({"cmd": cmd, "prop": prop, "n": n, "applied": False, "note": how})
             return
         t0 = time.time()
-        r = subprocess.run(f"cd {d} && PYTHONPATH={d} /venv/bin/python -m pytest -q -p no:cacheprovider -n 10 --timeout=900 tests 2>&1 | tail -5", shell=True, capture_output=True, text=True, env=ENV)
+        r = subprocess.run(f"cd {d} && PYTHONPATH={d} /venv/bin/python -m pytest -q -p no:cacheprovider -n 8 --timeout=900 tests 2>&1 | tail -5", shell=True, capture_output=True, text=True, env=ENV)
         record({"cmd": cmd, "prop": prop, "n": n, "applied": how, "tail": r.stdout[-400:], "wall": round(time.time() - t0)})
         drop(d)
     elif cmd == "check":
